@@ -3,6 +3,7 @@ import GcArena.Proofs.Protocol
 import GcArena.Proofs.GrayMono
 import GcArena.Proofs.RunBridge
 import GcArena.Proofs.ProtRun
+import GcArena.Proofs.MarkedFlag
 /-!
 # C08 — Collection-phase protocol of the Arena API
 
@@ -459,7 +460,13 @@ theorem observable_phase_order {root : List Slot} (ms1 : List Micro) (m : Micro)
 /-! ### The order of the observable phase over whole histories -/
 
 /-- Every micro-step of the sequence `ms`, taken from `c`, moves the observable phase by one
-    `ObsStep`. -/
+    `ObsStep`.  The form is universal-conditional — "for every position of `ms`, if the prefix runs
+    to `c1` and the step there leads to `c2` …" — and that is the stronger form, not a vacuous one:
+    `Ctx.micros` is a function, so for a sequence that runs (`c.micros root ms = some c'`, which every
+    use below supplies) *each* position has exactly one such pair `(c1, c2)`, the premise holds at
+    every position, and the statement says all of them are `ObsStep`s.  The same content as a trace:
+    `obsTrace` / `obsTrace_chain` / `observable_phase_trace_run` below (the list of observable phases
+    visited is a chain of `ObsStep`s from the phase before to the phase after). -/
 def MicrosObsOrdered (c : Ctx) (root : List Slot) (ms : List Micro) : Prop :=
   ∀ (ms1 ms2 : List Micro) (m : Micro) (c1 c2 : Ctx), ms = ms1 ++ m :: ms2 →
     c.micros root ms1 = some c1 → c1.micro root m = some c2 → ObsStep (obs c1) (obs c2)
@@ -519,6 +526,90 @@ theorem observable_phase_order_run (n : Nat) (ops : List Op) (op : Op) :
         rw [this] at hsplit
         cases ms1 <;> cases hsplit
 
+/-- The observable phases of the states visited by the micro-steps `ms` from `c`. -/
+def obsTrace (c : Ctx) (root : List Slot) : List Micro → List Obs
+  | [] => [obs c]
+  | m :: ms =>
+    match c.micro root m with
+    | some c' => obs c :: obsTrace c' root ms
+    | none => [obs c]
+
+/-- A list of observable phases each of which follows from the previous one by one `ObsStep`. -/
+inductive ObsChain : List Obs → Prop
+  | single (s : Obs) : ObsChain [s]
+  | cons {s t : Obs} {l : List Obs} : ObsStep s t → ObsChain (t :: l) → ObsChain (s :: t :: l)
+
+theorem obsTrace_head (c : Ctx) (root : List Slot) (ms : List Micro) :
+    ∃ l, obsTrace c root ms = obs c :: l := by
+  cases ms with
+  | nil => exact ⟨[], rfl⟩
+  | cons m ms =>
+    simp only [obsTrace]
+    split
+    · exact ⟨_, rfl⟩
+    · exact ⟨[], rfl⟩
+
+/-- Existential / trace form: the phases visited form a chain of `ObsStep`s. -/
+theorem obsTrace_chain {root : List Slot} (ms : List Micro) : ∀ {c : Ctx}, CInv c root [] →
+    ObsChain (obsTrace c root ms) := by
+  induction ms with
+  | nil => intro c _; exact .single _
+  | cons m ms ih =>
+    intro c h
+    simp only [obsTrace]
+    cases hm : c.micro root m with
+    | none => exact .single _
+    | some c' =>
+      simp only
+      obtain ⟨l, hl⟩ := obsTrace_head c' root ms
+      have := ih (micro_inv h m hm)
+      rw [hl] at this ⊢
+      exact .cons (micro_observable_order h m hm) this
+
+/-- … it has one entry per state, starts at the phase before and ends at the phase after. -/
+theorem obsTrace_ends {root : List Slot} (ms : List Micro) : ∀ {c c' : Ctx},
+    c.micros root ms = some c' →
+    (obsTrace c root ms).length = ms.length + 1 ∧ (obsTrace c root ms).head? = some (obs c) ∧
+      (obsTrace c root ms).getLast? = some (obs c') := by
+  induction ms with
+  | nil => intro c c' hs; simp only [Ctx.micros] at hs; cases hs; simp [obsTrace]
+  | cons m ms ih =>
+    intro c c' hs
+    simp only [Ctx.micros] at hs
+    cases hm : c.micro root m with
+    | none => rw [hm] at hs; cases hs
+    | some c1 =>
+      rw [hm] at hs
+      obtain ⟨h1, _, h3⟩ := ih hs
+      obtain ⟨l, hl⟩ := obsTrace_head c1 root ms
+      simp only [obsTrace, hm]
+      refine ⟨by simp [h1], rfl, ?_⟩
+      rw [hl] at h3 ⊢
+      rw [List.getLast?_cons_cons]; exact h3
+
+/-- **The trace form of `observable_phase_order_run`.**  For a collection call (or rejected drop)
+    applied in any state of any history: there is a micro-step sequence taking
+    the context where the call took it whose trace of observable phases — one entry per intermediate
+    state, first = the phase before the call, last = the phase after it — is a chain of `ObsStep`s. -/
+theorem observable_phase_trace_run (n : Nat) (ops : List Op) (op : Op) :
+    let a := (Arena.new n).run ops
+    a.alive = true → op.isMutator = false → (a.step op).1.alive = true →
+    ∃ ms tr, a.ctx.micros a.root ms = some (a.step op).1.ctx ∧ tr = obsTrace a.ctx a.root ms ∧
+      ObsChain tr ∧ tr.length = ms.length + 1 ∧ tr.head? = some (obs a.ctx) ∧
+      tr.getLast? = some (obs (a.step op).1.ctx) := by
+  intro a halive hop hal
+  have h : Inv a := inv_run n ops halive
+  rcases step_kind h op hal with hm | rel
+  · rw [hm] at hop; cases hop
+  · obtain ⟨ms, hms, hnil⟩ := rel.reach
+    by_cases hcb : a.cb = none
+    · obtain ⟨e1, e2, e3⟩ := obsTrace_ends ms hms
+      exact ⟨ms, _, hms, rfl, obsTrace_chain ms (h.cinv0 hcb), e1, e2, e3⟩
+    · have := hnil hcb
+      subst this
+      obtain ⟨e1, e2, e3⟩ := obsTrace_ends [] hms
+      exact ⟨[], _, hms, rfl, .single _, e1, e2, e3⟩
+
 /-! ### The same facts about the API operations -/
 
 /-- `Arena::finish_marking` (self-driven, outside callbacks, on any reachable state) returns
@@ -572,6 +663,20 @@ theorem finish_cycle_ends_sleeping_run (n : Nat) (pre : List Op) (k : Cont) :
   show (obs (a.ctx.doCollection a.root .stop .finishCycle none).1).name = "Sleeping"
   rw [obs_sleeping (finish_cycle_ends_sleeping a.ctx a.root (h.cinv0 hcb))]
   rfl
+
+/-- **A `MarkedArena` outstanding ⇒ the arena is fully marked**, in every state of every history:
+    the model's `marked` flag (the client kept the `MarkedArena` of the previous call for `finalize`)
+    is set only when `phase == Mark && !gray_remaining()` held, survives only the pacing / debt knobs
+    (which touch the metrics alone), and is reset by every other operation.  Stronger than the clause
+    `Inv.markedMark` of the invariant (`phase = mark ∧ cb = none`), and proved without changing it. -/
+theorem marked_arena_outstanding_is_fully_marked (n : Nat) (ops : List Op) :
+    ((Arena.new n).run ops).marked = true →
+    Arena.isMarked ((Arena.new n).run ops).ctx = true ∧ ((Arena.new n).run ops).collectionPhase = "Marked" := by
+  intro hm
+  have h := marked_flag_run n ops hm
+  refine ⟨h, ?_⟩
+  simp only [Arena.isMarked, Bool.and_eq_true, decide_eq_true_eq, Bool.not_eq_true'] at h
+  simp [Arena.collectionPhase, h.1, h.2]
 
 /-! ### Non-vacuity -/
 
@@ -636,5 +741,43 @@ example :
     st [.wake, .markStep none, .markStep none, .markBreak, .toSweep] = some .sweeping ∧
     st [.wake, .markStep none, .markStep none, .markBreak, .toSweep, .sweepStep, .sweepEnd, .toSleep true]
       = some .sleeping := by decide
+
+/-- `observable_phase_order_run` / `observable_phase_trace_run` on concrete states: a barrier inside
+    a callback takes the first disjunct with Marked → Marking; a self-driven `finish_cycle` from the
+    marked state takes the second, and its trace is Marked, Marked, Sweeping, Sweeping, Sweeping,
+    Sleeping. -/
+example : obs ((Arena.new 1).run markedDemo).ctx = .marked ∧
+    obs (((Arena.new 1).run markedDemo).step (.barrier (.bb 0 none))).1.ctx = .marking := by decide
+
+example : (Op.barrier (.bb 0 none)).isMutator = true ∧
+    (obs (((Arena.new 1).run markedDemo).step (.barrier (.bb 0 none))).1.ctx = obs ((Arena.new 1).run markedDemo).ctx ∨
+      (obs ((Arena.new 1).run markedDemo).ctx = .marked ∧
+        obs (((Arena.new 1).run markedDemo).step (.barrier (.bb 0 none))).1.ctx = .marking)) := by
+  rcases observable_phase_order_run 1 markedDemo (.barrier (.bb 0 none)) (by decide) with h | h | h
+  · exact h
+  · exact ⟨rfl, Or.inr (by decide)⟩
+  · exact absurd h (by decide)
+
+example : ∃ ms tr, ((Arena.new 1).run (markedDemo.take 5)).ctx.micros ((Arena.new 1).run (markedDemo.take 5)).root ms =
+      some (((Arena.new 1).run (markedDemo.take 5)).step (.collect .finishCycle .drop none none)).1.ctx ∧
+    tr = obsTrace ((Arena.new 1).run (markedDemo.take 5)).ctx ((Arena.new 1).run (markedDemo.take 5)).root ms ∧
+    ObsChain tr ∧ tr.length = ms.length + 1 ∧ tr.head? = some .marked ∧ tr.getLast? = some .sleeping := by
+  obtain ⟨ms, tr, h1, h2, h3, h4, h5, h6⟩ := observable_phase_trace_run 1 (markedDemo.take 5)
+    (.collect .finishCycle .drop none none) (by decide) rfl (by decide)
+  refine ⟨ms, tr, h1, h2, h3, h4, ?_, ?_⟩
+  · rw [h5]; decide
+  · rw [h6]; decide
+
+example : obsTrace ((Arena.new 1).run (markedDemo.take 5)).ctx ((Arena.new 1).run (markedDemo.take 5)).root
+    [.markBreak, .toSweep, .sweepStep, .sweepEnd, .toSleep false] =
+    [.marked, .marked, .sweeping, .sweeping, .sweeping, .sleeping] := by decide
+
+/-- The flag is set after `finish_marking` kept for `finalize`, survives a pacing knob, and the
+    theorem applies. -/
+example : ((Arena.new 1).run (markedDemo.take 4 ++
+    [.collect .finishMarking .finalize none none, .adjustDebt 5])).marked = true := by decide
+example : ((Arena.new 1).run (markedDemo.take 4 ++
+    [.collect .finishMarking .finalize none none, .adjustDebt 5])).collectionPhase = "Marked" :=
+  (marked_arena_outstanding_is_fully_marked 1 _ (by decide)).2
 
 end GcArena.C08
